@@ -42,7 +42,7 @@ func H_C11_budget() {
 	r0, e0 := p0.parse(g)
 	N := p0.ExprCnt
 	n := vUint64()
-	w := uint64(24)
+	w := uint64(10)
 	if vTier() > 0 {
 		w = 96
 	}
